@@ -8,6 +8,16 @@ pub mod c01;
 pub mod c02;
 pub mod c03;
 pub mod c04;
+pub mod c05;
+pub mod c06;
+pub mod c07;
+pub mod c08;
+pub mod c09;
+pub mod c10;
+pub mod c11;
+pub mod c12;
+pub mod c13;
+pub mod c15;
 
 pub struct StageOut {
     pub property: String,
@@ -29,6 +39,18 @@ pub fn dispatch(ctx: &Ctx) -> StageOut {
         "c02" => c02::run(ctx),
         "c03" => c03::run(ctx),
         "c04" => c04::run(ctx),
+        "c05" => c05::run(ctx),
+        "c06" => c06::run(ctx),
+        "c07" => c07::run(ctx),
+        "c08" => c08::run(ctx),
+        "c09" => c09::run(ctx),
+        "c10" => c10::run(ctx),
+        "c11" => c11::run(ctx),
+        "c12" => c12::run(ctx),
+        "c13" => c13::run(ctx),
+        "c13f4" => c13::run_f4(ctx),
+        "c15" => c15::run(ctx),
+        "c12os" => c12::run_os_calls(ctx),
         other => {
             eprintln!("unknown stage {other}");
             std::process::exit(2);
